@@ -44,6 +44,7 @@ type Addr struct {
 
 type Obligation struct {
 	Name      string
+	Alt       string // safety obligations: position-independent alias kind@<hash of the source line>.<occurrence>
 	Kind      string
 	Func      string
 	Mark      int
